@@ -585,6 +585,20 @@ class Inliner:
                         if isinstance(st, _FUNCS + (ast.ClassDef,)):
                             out.append(st)
                             continue
+                        # 0. `x = A if t else B` / `return A if t else B` with a helper call in an arm becomes the if statement, so that the
+                        #    call is a statement's whole value (or first-evaluated) and the steps below apply to it
+                        v0 = getattr(st, "value", None)
+                        if isinstance(v0, ast.IfExp) and (isinstance(st, ast.Return) or (isinstance(st, ast.Assign) and len(st.targets) == 1 and isinstance(st.targets[0], ast.Name))) \
+                                and any(isinstance(c_, ast.Call) and self._match(c_, cls, helpers) is not None and self._match(c_, cls, helpers)[0] != (cls, fn.name)
+                                        for arm_ in (v0.body, v0.orelse) for c_ in ast.walk(arm_)):
+                            def mk(val_):
+                                new_ = ast.Return(value=val_) if isinstance(st, ast.Return) else ast.Assign(targets=[copy.deepcopy(st.targets[0])], value=val_)
+                                return ast.copy_location(new_, st)
+                            ifst = ast.copy_location(ast.If(test=v0.test, body=[mk(v0.body)], orelse=[mk(v0.orelse)]), st)
+                            ast.fix_missing_locations(ifst)
+                            did = True
+                            out.extend(do_block([ifst]))
+                            continue
                         # 1. expression-bodied helpers anywhere in the statement's own expressions
                         st = self._subst_expr_helpers(st, cls, helpers)
                         # 1b. a statement-bodied helper called inside a larger expression that is evaluated unconditionally and first
